@@ -53,7 +53,7 @@ impl C07 {
                 (Tri::Deny, "not an admin")
             } else {
                 // judged against the monitor's own record of the grants, not the stored allowance
-                let e = eval_subkey(shadow.allow.get(sender), pre.perms.get(sender), msgs, height, now);
+                let e = eval_subkey(shadow.allow.get(sender), shadow.perms.get(sender), msgs, height, now);
                 spend_of_call = e.spend.clone();
                 (e.verdict, e.reason)
             };
